@@ -103,6 +103,61 @@ fn run_reader(chunks: Vec<Vec<u8>>) -> Result<Vec<Vec<u8>>, String> {
     })
 }
 
+/// The same chunks through the reader's real socket arms: a loopback TCP connection (the chunks are written one by
+/// one; how TCP groups them into reads is up to the kernel, which the property allows: any partition) that is closed
+/// at the end, or loopback UDP datagrams (one datagram per read: exact chunk boundaries; the stream never ends, so the
+/// frames are collected until nothing has arrived for 150 ms).
+fn run_reader_socket(chunks: Vec<Vec<u8>>, udp: bool) -> Result<Vec<Vec<u8>>, String> {
+    use tokio::io::AsyncWriteExt;
+    catch(|| {
+        let rt = tokio::runtime::Builder::new_current_thread().enable_all().build().expect("runtime");
+        rt.block_on(async {
+            let mut out = vec![];
+            if !udp {
+                let l = tokio::net::TcpListener::bind("127.0.0.1:0").await.expect("bind");
+                let addr = l.local_addr().expect("addr");
+                let writer = tokio::spawn(async move {
+                    if let Ok((mut s, _)) = l.accept().await {
+                        let _ = s.set_nodelay(true);
+                        for c in chunks {
+                            let _ = s.write_all(&c).await;
+                            let _ = s.flush().await;
+                            tokio::task::yield_now().await;
+                        }
+                        let _ = s.shutdown().await;
+                    }
+                });
+                let stream = tokio::net::TcpStream::connect(addr).await.expect("connect");
+                let s = next_msg(DataSource::Tcp(stream)).await;
+                futures_util::pin_mut!(s);
+                while let Some(m) = s.next().await {
+                    out.push(m);
+                    if out.len() > 10_000 {
+                        break;
+                    }
+                }
+                let _ = writer.await;
+            } else {
+                let rx = tokio::net::UdpSocket::bind("127.0.0.1:0").await.expect("bind");
+                let addr = rx.local_addr().expect("addr");
+                let tx = tokio::net::UdpSocket::bind("127.0.0.1:0").await.expect("bind");
+                for c in chunks.iter().filter(|c| !c.is_empty()) {
+                    let _ = tx.send_to(c, addr).await;
+                }
+                let s = next_msg(DataSource::Udp(rx)).await;
+                futures_util::pin_mut!(s);
+                while let Ok(Some(m)) = tokio::time::timeout(std::time::Duration::from_millis(150), s.next()).await {
+                    out.push(m);
+                    if out.len() > 10_000 {
+                        break;
+                    }
+                }
+            }
+            out
+        })
+    })
+}
+
 fn split(stream: &[u8], cuts: &[usize]) -> Vec<Vec<u8>> {
     let mut c: Vec<usize> = cuts.iter().copied().filter(|x| *x > 0 && *x < stream.len()).collect();
     c.sort();
@@ -125,16 +180,29 @@ fn split(stream: &[u8], cuts: &[usize]) -> Vec<Vec<u8>> {
 }
 
 pub fn check_case(ctx: &Ctx, frames: &[Vec<u8>], cuts: &[usize]) -> Check {
+    check_case_via(ctx, frames, cuts, 0)
+}
+
+/// via: 0 = in-memory chunk source (hook H1), 1 = loopback TCP, 2 = loopback UDP datagrams
+pub fn check_case_via(ctx: &Ctx, frames: &[Vec<u8>], cuts: &[usize], via: u8) -> Check {
     ctx.eval();
     let stream: Vec<u8> = frames.iter().flat_map(|f| escape(f)).collect();
-    let rep = json!({"kind": "beast", "frames": frames.iter().map(hex::encode).collect::<Vec<_>>(), "cuts": cuts});
+    let mut rep = json!({"kind": "beast", "frames": frames.iter().map(hex::encode).collect::<Vec<_>>(), "cuts": cuts});
+    if via != 0 {
+        rep["via"] = json!(["chunks", "tcp", "udp"][via as usize % 3]);
+    }
     let fail = |sig: &str, d: String| Failure::new(format!("c09:{sig}"), d, rep.clone());
     // the generator's own frames must be what a straightforward deframer sees
     if reference_deframe(&stream) != frames {
         return Err(fail("harness-inconsistent", "reference deframer disagrees with the generated frame list".into()));
     }
     let chunks = split(&stream, cuts);
-    let got = run_reader(chunks.clone()).map_err(|p| fail("panic", p))?;
+    let got = match via {
+        0 => run_reader(chunks.clone()),
+        1 => run_reader_socket(chunks.clone(), false),
+        _ => run_reader_socket(chunks.clone(), true),
+    }
+    .map_err(|p| fail("panic", p))?;
     let whole = run_reader(split(&stream, &[])).map_err(|p| fail("panic-whole", p))?;
     let nesc = stream.len() - frames.iter().map(|f| f.len()).sum::<usize>();
     // a cut strictly inside a frame?
@@ -226,7 +294,7 @@ fn escape_pair_cuts(frames: &[Vec<u8>]) -> Vec<usize> {
 }
 
 pub fn run(ctx: &Ctx) {
-    ctx.set_rule("sequences of 1-12 well-formed Beast frames (types '1' 11 B, '2' 16 B, '3' 23 B; payload bytes with 0x1A density 0/10/25/50/100 %, forced runs of 2-6 consecutive 0x1A, 0x1A as first/last payload byte; escaped by doubling) x chunkings: every single cut, every pair of cuts (streams <= 150 B; thorough <= 260 B), cuts inside every escape pair, random multi-cuts, 1-byte dribble, 1024-byte reads of long streams. Driven through the real next_msg via the cfg-guarded in-memory DataSource. Oracle: yielded frames are a byte-exact prefix of the sent list, fewer than 23 escaped bytes stay pending, and the result equals whole-stream delivery; a 25-line reference deframer cross-checks the generated frame list. Non-trivial = at least one escaped byte and a cut strictly inside a frame; distinct by hash of (frames, cuts).");
+    ctx.set_rule("sequences of 1-12 well-formed Beast frames (types '1' 11 B, '2' 16 B, '3' 23 B; payload bytes with 0x1A density 0/10/25/50/100 %, forced runs of 2-6 consecutive 0x1A, 0x1A as first/last payload byte; escaped by doubling) x chunkings: every single cut, every pair of cuts (streams <= 150 B; thorough <= 260 B), cuts inside every escape pair, random multi-cuts, 1-byte dribble, 1024-byte reads of long streams. Driven through the real next_msg via the cfg-guarded in-memory DataSource. Oracle: yielded frames are a byte-exact prefix of the sent list, fewer than 23 escaped bytes stay pending, and the result equals whole-stream delivery; a 25-line reference deframer cross-checks the generated frame list. Non-trivial = at least one escaped byte and a cut strictly inside a frame; distinct by hash of (frames, cuts). The same oracle also judges the reader's real socket arms: sequences written chunk by chunk into a loopback TCP connection that is closed at the end, and sent as loopback UDP datagrams (one datagram per read, exact chunk boundaries, incl. cuts inside every escape pair).");
     ctx.assume("hook H1 (DataSource::Chunks) delivers chunks like the websocket arm: copied into the 1024-byte buffer, stream ends when the queue is empty");
     let n = ctx.tier.pick(4000u32, 48000u32);
     let max_exh = ctx.tier.pick(150usize, 260usize);
@@ -278,6 +346,21 @@ pub fn run(ctx: &Ctx) {
             check_case(ctx, &long, &cuts)
         });
     });
+    // the reader's real socket arms: loopback TCP (closed at the end) and loopback UDP (one datagram per read)
+    (0..shards).into_par_iter().for_each(|s| {
+        run_prop(ctx, &format!("tcp-{s}"), ctx.tier.pick(3_200u32, 64_000u32) / shards, (frames_strategy(12), proptest::collection::vec(any::<proptest::sample::Index>(), 0..12)), |(frames, idx)| {
+            let len: usize = frames.iter().map(|f| escape(f).len()).sum();
+            let cuts: Vec<usize> = idx.iter().map(|i| 1 + i.index(len.max(2) - 1)).collect();
+            ctx.class("sequence through a loopback TCP connection");
+            check_case_via(ctx, frames, &cuts, 1)
+        });
+        run_prop(ctx, &format!("udp-{s}"), ctx.tier.pick(480u32, 9_600u32) / shards, (frames_strategy(8), proptest::collection::vec(any::<proptest::sample::Index>(), 0..8), any::<bool>()), |(frames, idx, pairs)| {
+            let len: usize = frames.iter().map(|f| escape(f).len()).sum();
+            let cuts: Vec<usize> = if *pairs { escape_pair_cuts(frames) } else { idx.iter().map(|i| 1 + i.index(len.max(2) - 1)).collect() };
+            ctx.class("sequence as loopback UDP datagrams (exact chunk boundaries)");
+            check_case_via(ctx, frames, &cuts, 2)
+        });
+    });
     if ctx.tier == vcore::ev::Tier::Thorough {
         // coverage-guided campaign: bytes -> (frames, cuts), same oracle inside the target
         let seeds: Vec<Vec<u8>> = vec![vec![0], vec![3, 2, 0x1a, 0x1a, 0x1a, 4, 4, 4, 4, 1, 7], (0..=255u8).collect(), vec![0xff; 64], vec![8; 200]];
@@ -299,5 +382,10 @@ pub fn run(ctx: &Ctx) {
 pub fn replay(ctx: &Ctx, v: &Value) {
     let frames: Vec<Vec<u8>> = v["frames"].as_array().map(|a| a.iter().filter_map(|x| x.as_str().and_then(|h| hex::decode(h).ok())).collect()).unwrap_or_default();
     let cuts: Vec<usize> = v["cuts"].as_array().map(|a| a.iter().filter_map(|x| x.as_u64().map(|y| y as usize)).collect()).unwrap_or_default();
-    ctx.judge(check_case(ctx, &frames, &cuts));
+    let via = match v["via"].as_str() {
+        Some("tcp") => 1,
+        Some("udp") => 2,
+        _ => 0,
+    };
+    ctx.judge(check_case_via(ctx, &frames, &cuts, via));
 }
